@@ -30,7 +30,15 @@ Inductive obs :=
          (sends : list (addr * msg)) (seq : N)
 | ONone.
 
-Inductive case := CRun (selfs : list addr) (steps : list (ev * obs)).
+(** a run of the fine-grained registry model (one add in flight, the
+    disconnect handler, atomic events) as the harness scheduled it on the real
+    code; [KAddStart] names the group by gid, [KHVisit n] is n handler steps *)
+Inductive kev :=
+| KAt (e : gev) | KAddStart (gid p : addr) (keep : bool) | KAddRead | KAddCommit | KHPop | KHVisit (n : nat).
+
+Inductive case :=
+| CRun (selfs : list addr) (steps : list (ev * obs))
+| CConc (steps : list kev) (final : list dump_entry).
 
 Definition gtype_code (t : gtype) : N := match t with GJoin => 0 | GObserve => 1 | GKnown => 2 end.
 Definition addrs_eqb := list_eqb aeqb.
@@ -114,13 +122,38 @@ Fixpoint first_bad (s : net) (steps : list (ev * obs)) (i : nat) : option (nat *
       if step_ok s s' e' r o then first_bad s' t (S i) else Some (i, s', r)
   end.
 
+Definition kstep (c : cstate) (k : kev) : cstate :=
+  match k with
+  | KAt e => cstep false MaxKnown c (CAtomic e)
+  | KAddStart gid p keep =>
+      match get_group (c_svc c) gid with Some i => cstep false MaxKnown c (CAddStart i p keep) | None => c end
+  | KAddRead => cstep false MaxKnown c (CAddRead 0)
+  | KAddCommit => cstep false MaxKnown c (CAddCommit 0)
+  | KHPop => cstep false MaxKnown c CHPop
+  | KHVisit n => Nat.iter n (fun c => cstep false MaxKnown c CHVisit) c
+  end.
+(** final state: the observed dump, no add in flight, handler idle, nothing queued *)
+Definition conc_ok (c : cstate) (d : list dump_entry) : bool :=
+  dump_ok (c_svc c) d
+  && match c_adds c with [] => true | _ => false end
+  && match c_hand c with None => true | Some _ => false end
+  && match pend (c_svc c) with [] => true | _ => false end.
+
 Definition check_case (c : case) : bool :=
-  match c with CRun selfs steps => match first_bad (init_net selfs) steps 0 with None => true | Some _ => false end end.
+  match c with
+  | CRun selfs steps => match first_bad (init_net selfs) steps 0 with None => true | Some _ => false end
+  | CConc steps d => conc_ok (fold_left kstep steps cinit) d
+  end.
 
 (** on mismatch: step index, the model's output for it, the model's dump of
     the node concerned, and the observation *)
 Definition explain_case (c : case) :=
   match c with
+  | CConc steps d =>
+      let c' := fold_left kstep steps cinit in
+      if conc_ok c' d then None
+      else Some (0%nat, (None, out_none), Some (model_dump (c_svc c')),
+                 Some (OFlood (option_map (fun h => N.of_nat (length (snd h))) (c_hand c')) [] false [] [] (N.of_nat (length (c_adds c')))))
   | CRun selfs steps =>
       match first_bad (init_net selfs) steps 0 with
       | None => None
